@@ -94,7 +94,7 @@ func init() {
 		"that the passes compute the right strings (single line, RE2-parsable, \\s always together with \\x0b, no inline flag group surviving): value-level facts about text produced by a third-party optimiser.",
 		nil,
 		func(c *Ctx, tier string) []*Result {
-			return []*Result{c.RuleEscParity(), c.RuleFlagSet(), inPkg(c.RuleMapOrder(), 1, "regex/operators"), c.RuleSanitize(), c.RuleTemplate(c.cmdFns("update")), c.RuleEscMatch(), c.RuleFlagPattern(), c.RuleLogStderr(), c.RuleStdoutPure(), inFns(c.RuleRxRebuild(), c.cmdFns("update"), 1), c.RulePrintfConst(), c.RuleEscPos(), c.RulePatternPin("regex.RuleRxRegex"), c.RuleIdxArray(), c.RuleLitGuard()}
+			return []*Result{c.RuleEscParity(), c.RuleFlagSet(), inPkg(c.RuleMapOrder(), 0, "regex/operators", "regex"), c.RuleSanitize(), c.RuleTemplate(c.cmdFns("update")), c.RuleEscMatch(), c.RuleFlagPattern(), c.RuleLogStderr(), c.RuleStdoutPure(), inFns(c.RuleRxRebuild(), c.cmdFns("update"), 1), c.RulePrintfConst(), c.RuleEscPos(), c.RulePatternPin("regex.RuleRxRegex"), c.RuleIdxArray(), c.RuleLitGuard()}
 		})
 
 	prop("C03", "other",
@@ -114,7 +114,7 @@ func init() {
 		func(c *Ctx, tier string) []*Result {
 			drop, handle := c.RuleErrCached()
 			return []*Result{c.RuleIsoOwner(), c.RuleFlagsReject(), keyHas(c.RuleIsoFresh(), 2, "regex/parser."), c.RuleIsoGlobal("unit:(*regex/operators.Operator).Run"),
-				inPkg(drop, 3, "regex/parser"), inPkg(handle, 3, "regex/parser"), c.RuleDeferInLoop(), c.RuleDefMerge(), c.RuleContextDirs(), c.RuleCutset(), c.RuleLogStderr(), c.RuleStdoutPure(), c.RuleIncludeName(), c.RulePatternPin("regex.IncludeRegex", "regex.IncludeExceptRegex"), c.RuleReadLine(), c.RuleBorrow(), c.RuleIncludeFrame(), c.RuleIncludePass(), c.RuleDoubleWrap(), c.RuleGoShared(), c.RuleLimitRead(), c.RuleDefKept(), c.RulePrintfConst(), c.RuleCacheReader()}
+				inPkg(drop, 3, "regex/parser"), inPkg(handle, 3, "regex/parser"), c.RuleDeferInLoop(), c.RuleDefMerge(), c.RuleContextDirs(), c.RuleCutset(), c.RuleLogStderr(), c.RuleStdoutPure(), c.RuleIncludeName(), c.RulePatternPin("regex.IncludeRegex", "regex.IncludeExceptRegex"), c.RuleReadLine(), c.RuleBorrow(), c.RuleIncludeFrame(), c.RuleIncludePass(), c.RuleDoubleWrap(), c.RuleGoShared(), c.RuleLimitRead(), c.RuleDefKept(), c.RulePrintfConst(), c.RuleCacheReader(), c.RuleAppendAlias(), c.RulePathForm(), c.RuleCaptureRaw()}
 		})
 
 	prop("C06", "other",
@@ -124,7 +124,7 @@ func init() {
 		nil,
 		func(c *Ctx, tier string) []*Result {
 			return []*Result{inPkg(c.RuleMapOrder(), 2, "regex/parser"), c.RuleOrderKey(),
-				inPkg(c.RuleRxGroups(), 1, "regex/parser"), inPkg(c.RuleScanErr(), 0, "regex/parser"), c.RuleReadEOF(), c.RuleSuffixOps(), c.RuleExclKey(), c.RuleIsoGlobal("unit:(*regex/operators.Operator).Run"), c.RuleDefMerge(), c.RuleCutset(), c.RuleLogStderr(), c.RuleStdoutPure(), c.RuleIsoOwner(), c.RuleIncludeName(), c.RulePatternPin("regex.IncludeExceptRegex", "regex.IncludeRegex"), c.RuleReadLine(), c.RuleBorrow(), c.RuleIncludePass(), c.RuleExclOrder(), c.RuleGoShared(), c.RuleLimitRead(), c.RuleCtorDefaults(), c.RuleLineKeep(c.lineKeepScope("regex/parser"), 0), c.RuleLitGuard(), c.RulePrintfConst(), c.RuleCacheReader()}
+				inPkg(c.RuleRxGroups(), 1, "regex/parser"), inPkg(c.RuleScanErr(), 0, "regex/parser"), c.RuleReadEOF(), c.RuleSuffixOps(), c.RuleExclKey(), c.RuleIsoGlobal("unit:(*regex/operators.Operator).Run"), c.RuleDefMerge(), c.RuleCutset(), c.RuleLogStderr(), c.RuleStdoutPure(), c.RuleIsoOwner(), c.RuleIncludeName(), c.RulePatternPin("regex.IncludeExceptRegex", "regex.IncludeRegex"), c.RuleReadLine(), c.RuleBorrow(), c.RuleIncludePass(), c.RuleExclOrder(), c.RuleGoShared(), c.RuleLimitRead(), c.RuleCtorDefaults(), c.RuleLineKeep(c.lineKeepScope("regex/parser"), 0), c.RuleLitGuard(), c.RulePrintfConst(), c.RuleCacheReader(), c.RuleAppendAlias(), inPkg(c.RuleErrLog(), 1, "regex/parser")}
 		})
 
 	prop("C07", "other",
@@ -135,7 +135,7 @@ func init() {
 		func(c *Ctx, tier string) []*Result {
 			// every map iteration of the parser package except the ones that belong to C03/C06 alone
 			mo := inPkg(c.RuleMapOrder(), 1, "regex/parser")
-			return []*Result{c.RuleDefFragment(), mo, c.RuleIsoOwner(), keyHas(c.RuleRxDisjoint(false), 0, ":line handed to "), c.RuleDefMerge(), c.RuleRangeIndex(), inPkg(c.RuleErrLog(), 1, "regex/parser"), c.RuleLogStderr(), c.RuleStdoutPure(), c.RuleRxDisjoint(false), c.RulePatternPin("regex.DefinitionRegex"), c.RuleReadLine(), c.RuleBorrow(), c.RuleScanSplit(), inPkg(c.RuleEscParity(), 0, "regex/parser", "utils"), c.RuleDefKept(), c.RuleLitGuard(), c.RulePrintfConst()}
+			return []*Result{c.RuleDefFragment(), mo, c.RuleIsoOwner(), keyHas(c.RuleRxDisjoint(false), 0, ":line handed to "), c.RuleDefMerge(), c.RuleRangeIndex(), inPkg(c.RuleErrLog(), 1, "regex/parser"), c.RuleLogStderr(), c.RuleStdoutPure(), c.RuleRxDisjoint(false), c.RulePatternPin("regex.DefinitionRegex"), c.RuleReadLine(), c.RuleBorrow(), c.RuleScanSplit(), inPkg(c.RuleEscParity(), 0, "regex/parser", "utils"), c.RuleDefKept(), c.RuleLitGuard(), c.RulePrintfConst(), c.RuleAppendAlias(), c.RuleLimitRead()}
 		})
 
 	prop("C08", "other",
@@ -144,7 +144,7 @@ func init() {
 		"byte equality of the reports (the compare summary lines are value-level).",
 		nil,
 		func(c *Ctx, tier string) []*Result {
-			return []*Result{c.RuleIsoFresh(), c.RuleIsoGlobal("update", "compare", "format"), c.RuleSiblingRuleId(), c.RuleWalkSkip(), c.RuleWalkFilter("update", "compare", "format"), c.RuleErrWrap(), c.RuleRxGrammar(), c.RuleResolve(), keyHas(c.RuleFsGuard([]string{"format"}), 1, "cmd format"), keyHas(c.RuleFsTarget([]string{"format"}), 1, "cmd format"), c.RuleGoShared(), c.RuleCutset()}
+			return []*Result{c.RuleIsoFresh(), c.RuleIsoGlobal("update", "compare", "format"), c.RuleSiblingRuleId(), c.RuleWalkSkip(), c.RuleWalkFilter("update", "compare", "format"), c.RuleErrWrap(), c.RuleRxGrammar(), c.RuleResolve(), keyHas(c.RuleFsGuard([]string{"format"}), 1, "cmd format"), keyHas(c.RuleFsTarget([]string{"format"}), 1, "cmd format"), c.RuleGoShared(), c.RuleCutset(), c.RulePathForm(), c.RuleWalkStop()}
 		})
 
 	prop("C09", "other",
@@ -155,7 +155,7 @@ func init() {
 		func(c *Ctx, tier string) []*Result {
 			return []*Result{keyHas(c.RuleFsGuard([]string{"format"}), 1, "cmd format"), c.RuleFsSame([]string{"format"}),
 				inFns(c.RuleErrFlags(), c.cmdFns("format"), 0), keyHas(c.RuleFsAlways([]string{"format"}), 1, "cmd format"), inFns(c.RuleFsWriteDiscipline(), c.cmdFns("format"), 1), c.RuleFormatOnly(),
-				c.RuleWalkSkip("format"), c.RuleWalkFilter("format"), inFns(c.RuleResolve(), c.cmdFns("format"), 1), c.RulePredPure(), c.RuleFmtTrim(), inFns(c.errHandleOnly(), c.cmdFns("format"), 2), inFns(c.RuleErrLog(), c.cmdFns("format"), 1), c.RuleExactCompare(), c.RulePatternPin("regex.ProcessorEndRegex", "regex.ProcessorStartRegex"), c.RuleReadLine(), c.RuleBorrow(), c.RuleScanSplit(), c.RuleCtorDefaults(), c.RuleErrorfNil(), c.RuleLineKeep(c.lineKeepScope("cmd"), 0), c.RuleLitGuard()}
+				c.RuleWalkSkip("format"), c.RuleWalkFilter("format"), inFns(c.RuleResolve(), c.cmdFns("format"), 1), c.RulePredPure(), c.RuleFmtTrim(), inFns(c.errHandleOnly(), c.cmdFns("format"), 2), inFns(c.RuleErrLog(), c.cmdFns("format"), 1), c.RuleExactCompare(), c.RulePatternPin("regex.ProcessorEndRegex", "regex.ProcessorStartRegex"), c.RuleReadLine(), c.RuleBorrow(), c.RuleScanSplit(), c.RuleCtorDefaults(), c.RuleErrorfNil(), c.RuleLineKeep(c.lineKeepScope("cmd"), 0), c.RuleLitGuard(), c.RuleAppendAlias()}
 		})
 
 	prop("C10", "other",
@@ -168,7 +168,7 @@ func init() {
 			drop, handle := c.RuleErrCached()
 			_ = drop
 			return []*Result{inFns(c.RuleRxRebuild(), fmtFns, 7), c.RuleRxDisjoint(tier == "thorough"), inFns(c.RuleRxGroups(), fmtFns, 7),
-				inFns(handle, fmtFns, 2), inFns(c.RuleErrLog(), fmtFns, 2), c.RuleFormatOnly(), inFns(c.RuleFsWriteDiscipline(), fmtFns, 1), c.RulePrintfConst(), c.RuleProcStart(), c.RulePredPure(), c.RuleFmtTrim(), c.RuleExactCompare(), c.RuleBufAlias(), c.RulePatternPin("regex.IncludeRegex", "regex.IncludeExceptRegex", "regex.DefinitionRegex", "regex.FlagsRegex", "regex.PrefixRegex", "regex.SuffixRegex", "regex.CommentRegex", "regex.ProcessorEndRegex", "regex.ProcessorStartRegex"), c.RuleReadLine(), c.RuleBorrow(), c.RuleScanSplit(), c.RuleDoubleWrap(), c.RuleStdoutPure(), c.RuleLineKeep(c.lineKeepScope("cmd"), 0), c.RuleLitGuard(), c.RulePrintfConst()}
+				inFns(handle, fmtFns, 2), inFns(c.RuleErrLog(), fmtFns, 2), c.RuleFormatOnly(), inFns(c.RuleFsWriteDiscipline(), fmtFns, 1), c.RulePrintfConst(), c.RuleProcStart(), c.RulePredPure(), c.RuleFmtTrim(), c.RuleExactCompare(), c.RuleBufAlias(), c.RulePatternPin("regex.IncludeRegex", "regex.IncludeExceptRegex", "regex.DefinitionRegex", "regex.FlagsRegex", "regex.PrefixRegex", "regex.SuffixRegex", "regex.CommentRegex", "regex.ProcessorEndRegex", "regex.ProcessorStartRegex"), c.RuleReadLine(), c.RuleBorrow(), c.RuleScanSplit(), c.RuleDoubleWrap(), c.RuleStdoutPure(), c.RuleLineKeep(c.lineKeepScope("cmd"), 0), c.RuleLitGuard(), c.RulePrintfConst(), c.RuleAppendAlias(), c.RuleFormatLine()}
 		})
 
 	prop("C11", "other",
@@ -180,7 +180,7 @@ func init() {
 			upd := c.cmdFns("update")
 			return []*Result{keyHas(c.RuleFsTarget([]string{"update"}), 1, "cmd update"), c.RuleSplitJoinFrame(), inFns(c.RuleRxRebuild(), upd, 1),
 				inFns(c.RuleValidate(), upd, 1), c.RuleTemplate(upd), inFns(c.RuleFsWriteDiscipline(), upd, 1), inFns(c.RuleResolve(), upd, 1), keyHas(c.RuleIsoFresh(), 1, "cmd update"),
-				inFns(c.RuleNarrow(), upd, 1), inFns(c.RuleSiblingRuleId(), upd, 1), c.RuleIsoGlobal("update"), c.RuleSiblingLocator(), inFns(c.errHandleOnly(), upd, 2), c.RuleWriteReached("update"), c.RuleRxGrammar(), keyHas(c.RuleResolve(), 1, "input of the assembler"), c.RulePatternPin("regex.RuleRxRegex", "regex.SecRuleRegex"), c.RuleReadLine(), c.RuleBorrow(), c.RuleSearchResume(), c.RuleGoShared(), c.RuleWalkSkip("update"), c.RuleLitGuard(), c.RuleLocComment(), c.RuleCompareVerdict()}
+				inFns(c.RuleNarrow(), upd, 1), inFns(c.RuleSiblingRuleId(), upd, 1), c.RuleIsoGlobal("update"), c.RuleSiblingLocator(), inFns(c.errHandleOnly(), upd, 2), c.RuleWriteReached("update"), c.RuleRxGrammar(), keyHas(c.RuleResolve(), 1, "input of the assembler"), c.RulePatternPin("regex.RuleRxRegex", "regex.SecRuleRegex"), c.RuleReadLine(), c.RuleBorrow(), c.RuleSearchResume(), c.RuleGoShared(), c.RuleWalkSkip("update"), c.RuleLitGuard(), c.RuleLocComment(), c.RuleCompareVerdict(), c.RuleAppendAlias(), c.RuleStdoutNone("update"), c.RuleOperandVerbatim(), c.RuleWalkStop()}
 		})
 
 	prop("C12", "other",
@@ -195,7 +195,7 @@ func init() {
 			}
 			return []*Result{c.RuleSiblingLocator(), c.RuleCompareVerdict(), keyHas(inFns(c.RuleRxGroups(), both, 1), 1, "regex.RuleRxRegex"),
 				inFns(c.RuleErrFlags(), c.cmdFns("compare"), 0), c.RuleTemplate(c.cmdFns("update")), inFns(c.RuleRxRebuild(), c.cmdFns("update"), 1),
-				inFns(c.RuleNarrow(), both, 1), c.RuleSiblingRuleId(), c.RuleSplitJoinFrame(), c.RuleIsoGlobal("update", "compare"), inPkg(c.RuleMapOrder(), 2, "regex/parser"), c.RuleErrWrap(), c.RuleValidateStore(), c.RuleWriteReached("update"), c.RuleLogStderr(), c.RuleStdoutPure(), c.RuleRxGrammar(), c.RuleWalkSkip("update", "compare"), inFns(c.RuleValidate(), c.cmdFns("update"), 1), c.RulePrintfConst(), keyHas(c.RuleResolve(), 1, "input of the assembler"), c.RuleExactCompare(), c.RulePatternPin("regex.RuleRxRegex", "regex.SecRuleRegex"), c.RuleReadLine(), c.RuleBorrow(), c.RuleSearchResume(), inFns(c.errHandleOnly(), c.cmdFns("compare"), 1), c.RuleLitGuard(), c.RuleLocComment(), c.RuleErrorfNil()}
+				inFns(c.RuleNarrow(), both, 1), c.RuleSiblingRuleId(), c.RuleSplitJoinFrame(), c.RuleIsoGlobal("update", "compare"), inPkg(c.RuleMapOrder(), 2, "regex/parser"), c.RuleErrWrap(), c.RuleValidateStore(), c.RuleWriteReached("update"), c.RuleLogStderr(), c.RuleStdoutPure(), c.RuleRxGrammar(), c.RuleWalkSkip("update", "compare"), inFns(c.RuleValidate(), c.cmdFns("update"), 1), c.RulePrintfConst(), keyHas(c.RuleResolve(), 1, "input of the assembler"), c.RuleExactCompare(), c.RulePatternPin("regex.RuleRxRegex", "regex.SecRuleRegex"), c.RuleReadLine(), c.RuleBorrow(), c.RuleSearchResume(), inFns(c.errHandleOnly(), c.cmdFns("compare"), 1), c.RuleLitGuard(), c.RuleLocComment(), c.RuleErrorfNil(), c.RuleAppendAlias(), c.RuleOperandVerbatim()}
 		})
 
 	prop("C13", "other",
@@ -207,7 +207,7 @@ func init() {
 			return []*Result{keyHas(c.RuleFsGuard([]string{"renumber-tests"}), 1, "cmd renumber-tests"), c.RuleFsSame([]string{"renumber-tests"}),
 				keyHas(c.RuleFsTarget([]string{"renumber-tests"}), 1, "cmd renumber-tests"), inFns(c.RuleRxRebuild(), c.cmdFns("renumber-tests"), 2),
 				inFns(c.RuleScanErr(), c.cmdFns("renumber-tests"), 0), c.RuleReadEOF(), inFns(c.RuleRxGroups(), c.cmdFns("renumber-tests"), 3), c.RuleIsoGlobal("renumber-tests"),
-				inFns(c.RuleErrFlags(), c.cmdFns("renumber-tests"), 0), c.RuleFsAlways([]string{"renumber-tests"}), inFns(c.RuleFsWriteDiscipline(), c.cmdFns("renumber-tests"), 1), c.RuleWalkFilter("renumber-tests"), c.RuleWalkSkip("renumber-tests"), inFns(c.errHandleOnly(), c.cmdFns("renumber-tests"), 2), c.RuleRxSibling(), c.RuleTestFileGrammar(), c.RuleBufAlias(), c.RulePatternPin("regex.TestIdRegex", "regex.TestTitleRegex"), c.RuleReadLine(), c.RuleBorrow(), c.RuleBufwFlush(), c.RuleErrorfNil(), c.RuleLineKeep(c.lineKeepScope("util"), 0)}
+				inFns(c.RuleErrFlags(), c.cmdFns("renumber-tests"), 0), c.RuleFsAlways([]string{"renumber-tests"}), inFns(c.RuleFsWriteDiscipline(), c.cmdFns("renumber-tests"), 1), c.RuleWalkFilter("renumber-tests"), c.RuleWalkSkip("renumber-tests"), inFns(c.errHandleOnly(), c.cmdFns("renumber-tests"), 2), c.RuleRxSibling(), c.RuleTestFileGrammar(), c.RuleBufAlias(), c.RulePatternPin("regex.TestIdRegex", "regex.TestTitleRegex"), c.RuleReadLine(), c.RuleBorrow(), c.RuleBufwFlush(), c.RuleErrorfNil(), c.RuleLineKeep(c.lineKeepScope("util"), 0), c.RuleAppendAlias(), c.RulePathForm()}
 		})
 
 	prop("C14", "other",
@@ -217,7 +217,7 @@ func init() {
 		[]string{"semver.NewVersion accepts a subset of its anchored versionRegex (read from the library source in the module cache)", "the year is four digits (quantifier of C14; the command does not validate it)"},
 		func(c *Ctx, tier string) []*Result {
 			return []*Result{c.RuleRxIncl(), keyHas(c.RuleFsTarget([]string{"update-copyright"}), 1, "cmd update-copyright"), inFns(c.RuleScanErr(), c.cmdFns("update-copyright"), 0), c.RuleReadEOF(),
-				c.RuleFsAlways([]string{"update-copyright"}), c.RuleTemplate(c.cmdFns("update-copyright")), c.RuleIsoGlobal("update-copyright"), inFns(c.RuleFsWriteDiscipline(), c.cmdFns("update-copyright"), 1), c.RuleWalkFilter("update-copyright"), c.RuleWalkSkip("update-copyright"), keyHas(c.RuleResolve(), 1, "root", "Root", "workingDirectory"), c.RuleBufAlias(), c.RuleReadLine(), c.RuleBorrow(), c.RuleBufwFlush(), c.RuleLineKeep(c.lineKeepScope("chore"), 0), c.RuleLitGuard()}
+				c.RuleFsAlways([]string{"update-copyright"}), c.RuleTemplate(c.cmdFns("update-copyright")), c.RuleIsoGlobal("update-copyright"), inFns(c.RuleFsWriteDiscipline(), c.cmdFns("update-copyright"), 1), c.RuleWalkFilter("update-copyright"), c.RuleWalkSkip("update-copyright"), keyHas(c.RuleResolve(), 1, "root", "Root", "workingDirectory"), c.RuleBufAlias(), c.RuleReadLine(), c.RuleBorrow(), c.RuleBufwFlush(), c.RuleLineKeep(c.lineKeepScope("chore"), 0), c.RuleLitGuard(), c.RuleAppendAlias(), c.RulePathForm()}
 		})
 
 	prop("C15", "other",
@@ -226,7 +226,7 @@ func init() {
 		"a user argument containing '..' joined below a context directory (hostile arguments are outside the quantifier); cobra's completion debug file, which only the hidden __complete command writes when BASH_COMP_DEBUG_FILE is set (reviewed exclusion, DESIGN.md).",
 		[]string{"third-party functions write only where the computed static closure (calls and function-value references inside the dependencies) says"},
 		func(c *Ctx, tier string) []*Result {
-			return []*Result{c.RuleFsWrite(), c.RuleFsGuard([]string{"format", "renumber-tests"}), c.RuleFsTarget([]string{"format", "update", "renumber-tests", "update-copyright", "self-update"}), c.RuleFsWriteDiscipline(), keyHas(c.RuleResolve(), 1, "root", "Root", "workingDirectory"), keyHas(c.errHandleOnly(), 1, "workingDirectory"), c.RuleContextDirs(), c.RuleTestFileGrammar(), c.RuleWalkFilter("update", "compare", "format", "update-copyright"), c.RuleCtorDefaults()}
+			return []*Result{c.RuleFsWrite(), c.RuleFsGuard([]string{"format", "renumber-tests"}), c.RuleFsTarget([]string{"format", "update", "renumber-tests", "update-copyright", "self-update"}), c.RuleFsWriteDiscipline(), keyHas(c.RuleResolve(), 1, "root", "Root", "workingDirectory"), keyHas(c.errHandleOnly(), 1, "workingDirectory"), c.RuleContextDirs(), c.RuleTestFileGrammar(), c.RuleWalkFilter("update", "compare", "format", "update-copyright"), c.RuleCtorDefaults(), c.RulePathForm()}
 		})
 
 	prop("C18", "other",
@@ -245,7 +245,7 @@ func init() {
 		nil,
 		func(c *Ctx, tier string) []*Result {
 			return []*Result{c.RuleEscMatch(), c.RuleScanBound(), c.RuleRxGroups(), c.RuleIdxParam(), keyHas(c.RuleValidate(), 1, "odd-length"), c.RulePrintfConst(), c.RuleLastIndex(), c.RuleDefFragment(), c.RuleRecBound(),
-				inPkg(c.errHandleOnly(), 10, "regex/parser", "regex/operators", "regex/processors"), inPkg(c.RuleErrLog(), 5, "regex/parser", "regex/operators", "regex/processors"), c.RuleNoRecover(), c.RuleDeferInLoop(), c.RuleStrIndex(), c.RuleRangeIndex(), c.RuleLoopProgress(), c.RuleCtorNonNil(), c.RuleEscPos(), c.RuleSearchResume(), c.RuleIdxArray(), c.RuleGoShared(), c.RuleLitGuard()}
+				inPkg(c.errHandleOnly(), 10, "regex/parser", "regex/operators", "regex/processors"), inPkg(c.RuleErrLog(), 5, "regex/parser", "regex/operators", "regex/processors"), c.RuleNoRecover(), c.RuleDeferInLoop(), c.RuleStrIndex(), c.RuleRangeIndex(), c.RuleLoopProgress(), c.RuleCtorNonNil(), c.RuleEscPos(), c.RuleSearchResume(), c.RuleIdxArray(), c.RuleGoShared(), c.RuleLitGuard(), c.RuleLoopReplace()}
 		})
 
 	prop("C20", "other",
